@@ -74,17 +74,21 @@ def _split_words(prog, rep):
     pn = next(iter(m.state))
     prev = ("upvar", pn)
     r1.check(m.env.get(pn) == ("int", 0), "prev-init", "prev starts at 0", D(m.env.get(pn)), "prev starts at %s" % D(m.env.get(pn)))
-    # the word capture and the split point iterator
+    # the captured word: base of the slices stored in the `word` field of the yielded pieces
     wcap = None
-    for n, v in m.env.items():
-        if n in m.caps and cb.raw and any(d["name"] == n and "Word" in d.get("place", {}).get("ty", "") for d in cb.raw["debug"]):
-            wcap = ("upvar", n)
+    for rp in m.returns:
+        f0 = _word_adt(rp.ret)
+        if f0 and f0.get("word") is not None and f0["word"][0] == "call" and f0["word"][1] == "Index::index":
+            b0 = f0["word"][2][0]
+            if b0[0] == "field" and b0[2] == "word" and b0[1][0] == "upvar":
+                wcap = b0[1]
     if wcap is None:
-        raise AnchorMissing("split_words closure: captured Word not found")
+        raise AnchorMissing("split_words closure: the yielded pieces are not slices of a captured word's text")
     WW = ("field", wcap, "word")
     LEN = ("call", "str::len", (WW,))
     n_mid = n_tail = 0
     tail_guards = set()
+    tail_rows = []
     for rp in m.returns:
         f = _word_adt(rp.ret)
         site = site_of_block(cb, rp.path[-2])
@@ -134,10 +138,14 @@ def _split_words(prog, rep):
             c1 = GT0(poly(LEN) - poly(prev))
             c2a = GE0(poly(prev) - poly(LEN))
             c2b = EQ0(poly(prev))
-            tail_guards.add("lt" if nfs == {c1} else "zero" if c2b in nfs else "?")
-            r1.check(nfs == {c1} or nfs == {c2a, c2b} or nfs == {c2b}, "tail-guard", "the final piece is yielded iff prev < len || prev == 0",
+            from ..poly import truth_rows
+            row = truth_rows(nfs, [c1, c2b])
+            r1.check(row is not None, "tail-guard", "the final piece's guard only tests prev < len and prev == 0",
                      str([(k, p.show(D)) for k, p in nfs]),
-                     "the final piece is yielded under %s; expected prev < word.len() || prev == 0" % [(k, p.show(D)) for k, p in nfs], site=site)
+                     "the final piece is yielded under %s; expected a condition built from prev < word.len() and prev == 0"
+                     % [(k, p.show(D)) for k, p in nfs], site=site)
+            if row is not None:
+                tail_rows.append(row)
             r1.check(poly(rp.next[pn]) == poly(LEN) + poly(("int", 1)), "tail-advance", "then prev := len + 1", "next(prev) = len + 1",
                      "after the final piece prev becomes %s; expected word.len() + 1 (so that an empty word is yielded exactly once)"
                      % D(rp.next[pn]), site=site)
@@ -150,9 +158,13 @@ def _split_words(prog, rep):
                      % (D(f.get("whitespace")), D(f.get("penalty"))), site=site)
         else:
             r1.check(False, "piece-kind", "", "", "a piece's word field is %s" % D(w), site=site)
-    r1.check(tail_guards == {"lt", "zero"}, "tail-guard-both", "the final piece is yielded for prev < len and also for prev == 0 (empty word)",
-             str(sorted(tail_guards)), "the final piece's guard covers only %s of {prev < len, prev == 0}: an empty word would %s"
-             % (sorted(tail_guards), "vanish" if "zero" not in tail_guards else "be mishandled"))
+    from ..poly import models_of
+    got = models_of(tail_rows, 2)
+    want = {(a, z) for a in (False, True) for z in (False, True) if a or z}
+    r1.check(got == want, "tail-guard-both", "the final piece is yielded exactly when prev < len || prev == 0",
+             "truth table over {prev < len, prev == 0}: %s" % sorted(got),
+             "the final piece is yielded for %s of (prev < len, prev == 0); expected exactly the cases where one of them holds "
+             "(an empty word must be yielded once, a consumed word not again)" % sorted(got))
     r1.check(n_mid >= 1 and n_tail >= 1, "kinds", "both piece kinds exist", "%d/%d" % (n_mid, n_tail),
              "split_words lacks non-final or final pieces (%d/%d)" % (n_mid, n_tail), nontrivial=False)
 
